@@ -183,7 +183,57 @@ fn instantiate_struct_field_ty(
 }
 
 /// Whether `ty` is in the domain of the operator class; `None` while the type is not known yet.
-fn operand_in_domain(op: OperandClass, ty: &tast::Ty) -> Option<bool> {
+fn operand_in_domain(genv: &PackageTypeEnv, op: OperandClass, ty: &tast::Ty) -> Option<bool> {
+    operand_in_domain_under(genv, op, ty, &mut Vec::new())
+}
+
+/// The types stored in a value of the struct or enum type `ty` (type arguments substituted).
+fn stored_component_types(genv: &PackageTypeEnv, ty: &tast::Ty) -> Option<Vec<tast::Ty>> {
+    fn decompose(ty: &tast::Ty) -> Option<(String, bool, Vec<tast::Ty>)> {
+        match ty {
+            tast::Ty::TStruct { name } => Some((name.clone(), true, Vec::new())),
+            tast::Ty::TEnum { name } => Some((name.clone(), false, Vec::new())),
+            tast::Ty::TApp { ty: base, args } => {
+                let (name, is_struct, mut collected) = decompose(base)?;
+                collected.extend(args.iter().cloned());
+                Some((name, is_struct, collected))
+            }
+            _ => None,
+        }
+    }
+    let (name, is_struct, type_args) = decompose(ty)?;
+    let (resolved, env) = super::util::resolve_type_name(genv, &name);
+    let (generics, stored): (&[TastIdent], Vec<&tast::Ty>) = if is_struct {
+        let def = env.structs().get(&TastIdent(resolved))?;
+        (&def.generics, def.fields.iter().map(|(_, t)| t).collect())
+    } else {
+        let def = env.enums().get(&TastIdent(resolved))?;
+        (
+            &def.generics,
+            def.variants.iter().flat_map(|(_, ts)| ts.iter()).collect(),
+        )
+    };
+    if generics.len() != type_args.len() {
+        return None;
+    }
+    let mut subst = HashMap::new();
+    for (param, arg) in generics.iter().zip(type_args.iter()) {
+        subst.insert(param.0.clone(), arg.clone());
+    }
+    Some(
+        stored
+            .into_iter()
+            .map(|t| substitute_ty_params(t, &subst))
+            .collect(),
+    )
+}
+
+fn operand_in_domain_under(
+    genv: &PackageTypeEnv,
+    op: OperandClass,
+    ty: &tast::Ty,
+    visiting: &mut Vec<tast::Ty>,
+) -> Option<bool> {
     let numeric = matches!(
         ty,
         tast::Ty::TInt8
@@ -211,10 +261,28 @@ fn operand_in_domain(op: OperandClass, ty: &tast::Ty) -> Option<bool> {
                 tast::Ty::TTuple { typs } => {
                     return typs
                         .iter()
-                        .map(|t| operand_in_domain(op, t))
+                        .map(|t| operand_in_domain_under(genv, op, t, visiting))
                         .try_fold(true, |acc, r| r.map(|ok| acc && ok));
                 }
-                tast::Ty::TArray { elem, .. } => return operand_in_domain(op, elem),
+                tast::Ty::TArray { elem, .. } => {
+                    return operand_in_domain_under(genv, op, elem, visiting);
+                }
+                // a struct or enum value is compared through what it stores
+                tast::Ty::TStruct { .. } | tast::Ty::TEnum { .. } | tast::Ty::TApp { .. } => {
+                    if visiting.contains(ty) {
+                        return Some(true);
+                    }
+                    let Some(stored) = stored_component_types(genv, ty) else {
+                        return Some(true);
+                    };
+                    visiting.push(ty.clone());
+                    let verdict = stored
+                        .iter()
+                        .map(|t| operand_in_domain_under(genv, op, t, visiting))
+                        .try_fold(true, |acc, r| r.map(|ok| acc && ok));
+                    visiting.pop();
+                    return verdict;
+                }
                 _ => true,
             },
         }),
@@ -429,7 +497,7 @@ impl Typer {
                     }
                     Constraint::OperandDomain { op, ty } => {
                         let norm_ty = self.norm(&ty);
-                        match operand_in_domain(op, &norm_ty) {
+                        match operand_in_domain(genv, op, &norm_ty) {
                             Some(true) => {}
                             Some(false) => {
                                 diagnostics.push(Diagnostic::new(
